@@ -276,6 +276,15 @@ theorem lock_order_ranked : orderEdges.all edgeOk = true := by decide +kernel
 /-- no call through a function value (callback, hook) is made while a lock may be held -/
 theorem no_callback_under_lock : dynamicCallsUnderLock = [] := by decide
 
+/-- nothing waits for another goroutine — a channel receive or send outside a `select`, a `WaitGroup` or `Cond`
+wait, a sleep — while a lock may be held (taken in the function itself or, through any chain of calls, by a
+caller): the goroutine waited for can then never be one that needs that lock -/
+theorem no_wait_under_lock : blockingUnderLock = [] := by decide
+
+/-- no method hands a slice or map held in a field to its caller as it is (or re-sliced) while the lock that guards
+it is held: what a caller walks after the lock is gone is a copy, so a listing sees a backend set that existed -/
+theorem no_shared_guarded_returns : sharedGuardedReturns = [] := by decide
+
 /-- the only function that releases a lock taken by its caller is the breaker's notifier -/
 theorem caller_releases_known :
     callerLockReleases.all (fun c =>
